@@ -84,6 +84,11 @@ pub struct Op {
   pub enforce: u8,
   /// true: use insert*/replace (without enforce) API where possible
   pub plain_api: bool,
+  /// call an observer (source()) on the ReplaceSource right before this
+  /// replacement is added: the earlier replacements get sorted first, so the
+  /// lazily sorted index has to be invalidated / extended by this call
+  #[serde(default)]
+  pub observe_before: bool,
 }
 
 #[derive(Clone, Copy, Debug, Serialize, Deserialize, PartialEq, Eq, Hash)]
@@ -508,7 +513,13 @@ pub fn enforce_of(e: u8) -> ReplacementEnforce {
   }
 }
 
-pub fn apply_op<T: Source>(r: &mut ReplaceSource<T>, op: &Op) {
+pub fn apply_op<T: Source + std::hash::Hash + PartialEq + Eq + 'static>(
+  r: &mut ReplaceSource<T>,
+  op: &Op,
+) {
+  if op.observe_before {
+    let _ = r.source().len();
+  }
   let name = op.name.as_deref();
   if op.plain_api && op.enforce == 1 {
     if op.start == op.end {
